@@ -1,5 +1,5 @@
 #!/bin/bash
-# usage: confirm_seed.sh <Cxx> <A|B>
+# usage: confirm_seed.sh <Cxx> <A|B|C>
 # Confirms a seeded change from /tmp/mut/<Cxx>/out/<V> in a scratch worktree of /repo's
 # HEAD: (1) patch applies, (2) the whole suite still passes with it, (3) the demo fails with it,
 # (4) the demo passes without it. Copies patch.diff/demo/meta.json to /verif/seeded/<Cxx>-<V>/
@@ -7,6 +7,8 @@
 set -u
 id="$1"; v="$2"
 src="/tmp/mut/$id/out/$v"
+# round 2 (variant C and later): the agent's deliverables are directly under /tmp/mut2/<Cxx>/out
+[ -f "$src/patch.diff" ] || src="/tmp/mut2/$id/out"
 [ -f "$src/patch.diff" ] || { echo "no patch for $id $v"; exit 2; }
 export GOFLAGS=-mod=mod GOPROXY=off
 wt=$(mktemp -d /tmp/seedwt.XXXXXX); rmdir "$wt"
